@@ -6,8 +6,8 @@ from ..sim import Monitor
 from .common import all_demes, deme_cls, flat
 
 PROP = "C01"
-N_QUICK = 3000
-N_THOROUGH = 60000
+N_QUICK = 7000
+N_THOROUGH = 150000
 RULE = ("Plans: all engine mixes, boxes (symmetric integer, asymmetric, inexact decimal, tiny 1e-6, huge 1e6, far from "
         "the origin), both sprout factories and composed mechanisms, all GSCs / LSCs, entry points tree/hms/minimize; "
         "faults: budget exhaustion (engines fed +-inf), external stop signal, injected LSC verdicts.")
